@@ -792,6 +792,16 @@ func (tr *trans) footprintOf(env *Env, m Expr, fp *footprint) {
 		}
 	case *ESel:
 		v := env.elab(x.X)
+		if v.kind == "pkg" {
+			if g, ok := tr.prog.CS.Ghosts[x.Name]; ok && g.PkgPath == v.pkg.Path() {
+				gv := env.ghostVar(g)
+				fp.whole[gv.name] = true
+				if gv.kind == "gmap" {
+					fp.whole[gv.name+"$dom"] = true
+				}
+				return
+			}
+		}
 		if v.ty != nil {
 			if pt, ok := v.ty.Underlying().(*types.Pointer); ok {
 				if stt, ok := pt.Elem().Underlying().(*types.Struct); ok {
